@@ -204,13 +204,13 @@ struct ruge_stuben {
                     a_num += v;
                     if (S.val[j] && cf[c] == 'C') {
                         a_den += v;
-                        if (prm.do_trunc && Amin[i] < v) d_neg += v;
+                        if (prm.do_trunc && Amin[i] <= v) d_neg += v;
                     }
                 } else {
                     b_num += v;
                     if (S.val[j] && cf[c] == 'C') {
                         b_den += v;
-                        if (prm.do_trunc && v < Amax[i]) d_pos += v;
+                        if (prm.do_trunc && v <= Amax[i]) d_pos += v;
                     }
                 }
             }
